@@ -47,7 +47,14 @@ def ok_payload(t):
 
 
 def run(ctx, rep):
+    global QREF
     prog = ctx.prog
+    if "crate::query::QueryRef" not in prog.adts:
+        cands = [p_ for p_ in prog.adts if p_.startswith("crate::") and p_.endswith("::QueryRef")]
+        if len(cands) == 1:
+            QREF = cands[0]         # the type moved to another module (re-exported under its old path)
+    else:
+        QREF = "crate::query::QueryRef"
     ev = Evaluator(prog)
     EVAL[0] = ev
     r1(prog, ev, rep)
